@@ -328,7 +328,7 @@ class Machine:
         self.fresh += 1
         return "%s~%d" % (hint, self.fresh)
 
-    def sym_value(self, ty, name, subst=None, int_bounds=None):
+    def sym_value(self, ty, name, subst=None, int_bounds=None, int_min=None):
         """fresh abstract value of type `ty` (type JSON) whose leaves are named after `name`"""
         k = ty["k"]
         if k == "prim":
@@ -344,6 +344,8 @@ class Machine:
                     if isinstance(b, int):
                         return b
                     lo, hi = max(lo, b[0]), min(hi, b[1])
+                elif int_min is not None:
+                    lo = max(lo, int_min)
                 self.ienv.declare(name, lo, hi)
                 return Lin.sym(name)
             if s == "bool":
@@ -351,14 +353,14 @@ class Machine:
             return VOpaque(ty, name)
         if k == "array":
             n = self.const_val(self._subst_const(ty["len"], subst))
-            return VArray([self.sym_value(ty["elem"], "%s[%d]" % (name, i), subst, int_bounds) for i in range(n)])
+            return VArray([self.sym_value(ty["elem"], "%s[%d]" % (name, i), subst, int_bounds, int_min) for i in range(n)])
         if k == "tuple":
-            return VTuple([self.sym_value(t, "%s.%d" % (name, i), subst, int_bounds) for i, t in enumerate(ty["elems"])])
+            return VTuple([self.sym_value(t, "%s.%d" % (name, i), subst, int_bounds, int_min) for i, t in enumerate(ty["elems"])])
         if k == "ref":
             to = ty["to"]
             if to["k"] in ("slice",) or (to["k"] == "prim" and to["s"] == "str"):
                 return VOpaque(ty, name)
-            c = Cell(self.sym_value(to, name if name.startswith("*") else "*" + name, subst, int_bounds), root=None)
+            c = Cell(self.sym_value(to, name if name.startswith("*") else "*" + name, subst, int_bounds, int_min), root=None)
             return VRef(c, (), ty["mut"])
         if k == "adt":
             a = self.db.adts.get(ty["path"])
@@ -368,12 +370,12 @@ class Machine:
             for g, arg in zip(a["generics"], [x for x in ty["args"] if x.get("k") != "region"]):
                 sub[g["name"]] = arg
             v = a["variants"][0]
-            fields = [self.sym_value(self._subst_ty(f["ty"], sub), "%s.%s" % (name, f["name"]), sub, int_bounds) for f in v["fields"]]
+            fields = [self.sym_value(self._subst_ty(f["ty"], sub), "%s.%s" % (name, f["name"]), sub, int_bounds, int_min) for f in v["fields"]]
             return VStruct(ty["path"], 0, fields, [f["name"] for f in v["fields"]], v["name"])
         if k == "param" and subst and ty["name"] in subst:
             tgt = subst[ty["name"]]
             if not (tgt.get("k") == "param" and tgt.get("name") == ty["name"]):
-                return self.sym_value(tgt, name, None, int_bounds)
+                return self.sym_value(tgt, name, None, int_bounds, int_min)
         return VOpaque(ty, name)
 
     def _subst_const(self, cj, subst):
